@@ -66,6 +66,8 @@ def ref_match(a, b, sig=None, under_qself=False, info=None):
     if k == "GenericArgument::Type" and k2 == "GenericArgument::Const" and len(kids) == 1 and kids[0][0] == "P":
         val = ("ex", kids2[0])
         n = kids[0][1]
+        if under_qself:
+            info["qself_bind"] = True
         if n in sig:
             return sig if sig[n] == val else None
         sig[n] = val
